@@ -42,6 +42,9 @@ def concStoreLine (st : CsRun) (lineNo : Nat) (line : String) : Except String (C
         [s!"PROPFAIL C13 flush_whole_document {tag} (with everything settled the cache document lacks a secret the store serves, or holds another version of it)",
          s!"PROPFAIL C16 polled_like_any_other {tag} (cache behind the store after lookups)",
          s!"PROPFAIL C19 drop_only_if {tag} (a secret with a live handle is missing from, or stale in, the cache)"]) ++
+      (if n "late_stamp_bad" == 0 then [] else
+        [s!"PROPFAIL C19 read_refreshes_access_time {tag} (two handles for one looked-up name, the second obtained by a lookup that was overtaken by the first: a read through one of them did not refresh the access time of the store's entry for the name)",
+         s!"PROPFAIL C12 handle_follows_the_store {tag} (a handle reads and stamps an entry the store no longer holds)"]) ++
       (if n "by_refresh_bad" == 0 then [] else
         [s!"PROPFAIL C11 poll_ok_fresh {tag} (a second store in the process, whose own service is never held: its Refresh failed, or returned nil without bringing its secret to its service's active version, while the first store's poll was in flight)"]) ++
       (if n "by_lookup_bad" == 0 then [] else
